@@ -194,7 +194,8 @@ Print Assumptions C05_facts_of_this_tree.
 
 (** (i) Access control, in EVERY state with [locked \/ watch] (reachable or
     not): private-key export, derivation by path (both variants), secret-script
-    access, private/script decryption and encryption, account creation, key
+    access, private/script decryption and encryption, account creation
+    (NewAccount, NewRawAccount; a new key scope on a locked manager), key
     import and secret-script import return a locked / watching-only error and
     no key material, and leave the state as the address lookup left it.  The
     last two clauses are about address OBJECTS the caller kept from earlier
